@@ -62,18 +62,22 @@ Proof. exact history_never_emptied. Qed.
 (* BeginBlock returns no error either: the validators whose votes a block carries (the set of two blocks earlier) still
    have a record that is Bonded or Unbonding and a signing info, so x/distribution finds every voter and x/slashing can
    look up, slash and jail — provided each block interval is shorter than the smallest unbonding time (m seconds) the
-   admin ever sets (H-time; with a shorter one a removed validator's record is deleted before its last votes are counted) *)
+   admin ever sets (H-time; with a shorter one a removed validator's record is deleted before its last votes are counted).
+   Double-sign evidence is handled by x/evidence in the same BeginBlock: it never fails either as long as each entry is
+   about a validator whose record the chain still has, of a height that is not in the future (H-evidence, [ev_env]:
+   CometBFT only forwards evidence younger than its max age); the signing info x/evidence insists on is proved to be there *)
 Theorem C04_beginblock_never_fails : forall m g bs e,
-  wf_genesis g -> 1 <= m -> m <= g_unbond_secs g -> 0 <= g_slash_down_bp g -> Forall (ut_block m) bs ->
+  wf_genesis g -> 1 <= m -> m <= g_unbond_secs g -> 0 <= g_slash_down_bp g -> 0 <= g_slash_dbl_bp g -> Forall (ut_block m) bs ->
+  ev_env (init_world g) bs ->
   w_halted (run_world (init_world g) bs) <> Some (HBeginBlock e).
 Proof. exact history_begin_never_halts. Qed.
 
-(* altogether: under the environment's hypotheses (H-time, H-alive, unsigned max_validators fields, a sane genesis) no
+(* altogether: under the environment's hypotheses (H-time, H-alive, H-evidence, unsigned max_validators fields, a sane genesis) no
    sequence of blocks of transactions makes block execution return an error or CometBFT refuse the updates, except
    possibly for CometBFT's bound on the total voting power (code 5), which is not excluded here *)
 Theorem C04_no_history_halts : forall m g bs,
-  wf_genesis g -> 1 <= g_max_vals g -> 1 <= m -> m <= g_unbond_secs g -> 0 <= g_slash_down_bp g ->
-  Forall (ut_block m) bs -> env_ok (init_world g) bs ->
+  wf_genesis g -> 1 <= g_max_vals g -> 1 <= m -> m <= g_unbond_secs g -> 0 <= g_slash_down_bp g -> 0 <= g_slash_dbl_bp g ->
+  Forall (ut_block m) bs -> env_ok (init_world g) bs -> ev_env (init_world g) bs ->
   w_halted (run_world (init_world g) bs) = None \/ w_halted (run_world (init_world g) bs) = Some (HComet 5).
 Proof. exact history_never_halts. Qed.
 
@@ -87,8 +91,8 @@ Proof. exact history_never_too_large. Qed.
 (* nothing left: under the environment's hypotheses no history halts at all *)
 Theorem C04_no_history_halts_at_all : forall m N g bs,
   wf_genesis g -> wf_genesis_bounded N g -> 0 <= N -> N * max_power_one <= max_total_voting_power ->
-  1 <= g_max_vals g -> 1 <= m -> m <= g_unbond_secs g -> 0 <= g_slash_down_bp g ->
-  Forall (ut_block m) bs -> Forall (kb_block N) bs -> env_ok (init_world g) bs ->
+  1 <= g_max_vals g -> 1 <= m -> m <= g_unbond_secs g -> 0 <= g_slash_down_bp g -> 0 <= g_slash_dbl_bp g ->
+  Forall (ut_block m) bs -> Forall (kb_block N) bs -> env_ok (init_world g) bs -> ev_env (init_world g) bs ->
   w_halted (run_world (init_world g) bs) = None.
 Proof. exact history_never_halts_at_all. Qed.
 
